@@ -163,11 +163,16 @@ def gen_cov(rng, m, correlated):
     return blocks
 
 
-def gen_dense(rng, mmax=9, nmax=5):
-    n = rng.randint(1, nmax)
-    m = rng.randint(n, mmax)
-    ndep = rng.choice([0, 0, 1, 1, 2]) if n > 1 else 0
-    ndep = min(ndep, n - 1)
+def gen_dense(rng, mmax=9, nmax=5, min_defect=None):
+    if min_defect is not None:          # planted defect min_defect..min_defect+1 (callers that need defect >= 2 often)
+        n = rng.randint(min_defect + 1, max(nmax, min_defect + 2))
+        m = rng.randint(n, max(mmax, n))
+        ndep = min(n - 1, min_defect + rng.choice([0, 0, 1]))
+    else:
+        n = rng.randint(1, nmax)
+        m = rng.randint(n, mmax)
+        ndep = rng.choice([0, 0, 1, 1, 2]) if n > 1 else 0
+        ndep = min(ndep, n - 1)
     nind = n - ndep
     while True:
         B = [[F(rng.choice([-3, -2, -1, 0, 0, 1, 2, 3])) for _ in range(nind)] for _ in range(m)]
@@ -227,9 +232,9 @@ def gen_levelling(rng, nmax=10):
     return len(rows), len(unk), rows, "levelling"
 
 
-def gen_problem(rng, family=None, correlated=None):
+def gen_problem(rng, family=None, correlated=None, min_defect=None):
     family = family or rng.choice(["dense", "dense", "levelling", "levelling"])
-    m, n, rows, fam = gen_dense(rng) if family == "dense" else gen_levelling(rng)
+    m, n, rows, fam = gen_dense(rng, min_defect=min_defect) if family == "dense" else gen_levelling(rng)
     if correlated is None:
         correlated = rng.random() < 0.5
     p = {"m": m, "n": n, "rows": rows, "family": fam, "cov": gen_cov(rng, m, correlated),
